@@ -72,9 +72,10 @@ def is_orthogonal(vects, tol=1e-12):
                 and abs(v[1] @ v[2]) <= tol * n[1] * n[2])
 
 
-def ni_candidates(l0, vects, pbc):
+def ni_candidates(l0, vects, pbc, w=None):
     """Number of lattice points the exhaustive search of geometry.nearest_image visits."""
-    w = G.perp_widths(vects)
+    if w is None:
+        w = G.perp_widths(vects)
     k = 1
     for i in range(3):
         if pbc[i]:
@@ -82,10 +83,48 @@ def ni_candidates(l0, vects, pbc):
     return k
 
 
+_GRIDS = {}
+_WIDTHS = {}
+
+
+def widths(v):
+    """geometry.perp_widths, memoised per cell (one-pair-at-a-time calls repeat the same cell many times)."""
+    key = v.tobytes()
+    w = _WIDTHS.get(key)
+    if w is None:
+        if len(_WIDTHS) > 16:
+            _WIDTHS.clear()
+        w = _WIDTHS[key] = G.perp_widths(v)
+    return w
+
+
+def _grid(ms):
+    """All integer triples with |n_i| <= ms[i] (memoised)."""
+    g = _GRIDS.get(ms)
+    if g is None:
+        if len(_GRIDS) > 64:
+            _GRIDS.clear()
+        ax = [np.arange(-m, m + 1, dtype=float) for m in ms]
+        g = _GRIDS[ms] = np.stack(np.meshgrid(*ax, indexing='ij'), axis=-1).reshape(-1, 3)
+    return g
+
+
+def nearest_image(l0, d0, vects, pbc, w):
+    """geometry.nearest_image with the 27-candidate minimum (l0, d0) and the perpendicular widths w of the cell given
+    (both are the same for every row of a call; the search itself is unchanged): any lattice vector T with
+    |d0 + T| <= |d0| has |T| <= 2 |d0|, and its integer coefficient along axis i is bounded by |T| / w_i."""
+    r = 2 * l0
+    ms = tuple(int(np.floor(r / w[i])) + 1 if pbc[i] else 0 for i in range(3))
+    cand = d0 + _grid(ms) @ vects
+    ln = np.sqrt(np.einsum('ij,ij->i', cand, cand))
+    k = int(np.argmin(ln))
+    return float(ln[k]), cand[k]
+
+
 class Truth:
     """Everything the oracle knows about N pairs in one cell."""
     __slots__ = ('P0', 'P1', 'd', 'bnd', 'l27', 'v27', 'ntie27', 'inside', 'ortho', 'wmin', 'lni', 'vni',
-                 'guard', 'guard_exempt', 'ni_done', 'vects', 'pbc', 'L', 'n')
+                 'guard', 'guard_exempt', 'ni_done', 'vects', 'pbc', 'L', 'n', 'host')
 
 
 def truth(p0, p1, vects, origin, pbc, want_ni=True, sample_outside=0):
@@ -99,13 +138,14 @@ def truth(p0, p1, vects, origin, pbc, want_ni=True, sample_outside=0):
     o = np.asarray(origin, float)
     pbc = tuple(bool(x) for x in pbc)
     t = Truth()
+    t.host = None
     t.P0, t.P1, t.vects, t.pbc = P0, P1, v, pbc
     t.n = n = P0.shape[0]
     t.L = L = np.linalg.norm(v, axis=1).max()
     t.d = d = P1 - P0
     t.bnd = 64 * EPS * (np.linalg.norm(P0, axis=1) + np.linalg.norm(P1, axis=1) + 3 * L)
     t.ortho = is_orthogonal(v)
-    t.wmin = G.perp_widths(v).min()
+    t.wmin = widths(v).min()
     t.lni = np.full(n, np.nan)
     t.vni = np.full((n, 3), np.nan)
     t.ni_done = np.zeros(n, bool)
@@ -126,10 +166,11 @@ def truth(p0, p1, vects, origin, pbc, want_ni=True, sample_outside=0):
         todo = list(np.nonzero(t.inside)[0])
         if sample_outside:
             todo += list(np.nonzero(~t.inside & (t.l27 < 4 * L))[0][:sample_outside])
+        w = widths(v)
         for k in todo:
-            if ni_candidates(t.l27[k], v, pbc) > MAX_CAND:
+            if ni_candidates(t.l27[k], v, pbc, w) > MAX_CAND:
                 continue
-            t.lni[k], t.vni[k] = G.nearest_image(d[k], v, pbc)
+            t.lni[k], t.vni[k] = nearest_image(t.l27[k], t.v27[k], v, pbc, w)
             t.ni_done[k] = True
         half = 0.5 * t.wmin
         if t.ortho:
@@ -214,6 +255,45 @@ def is_lammps_normalised(vects, tol=1e-12):
                 and abs(v[2, 1]) <= 0.5 * v[1, 1] * (1 + tol))
 
 
+def zero_class(vects):
+    """Arrangement of the EXACT zeros of the matrix of cell vectors (a statement about the input, independent of how
+    the workload generator labels the cell): 'full' (no zero) / 'diagonal' / 'upper-triangular' (zero lower triangle,
+    a non-zero above the diagonal) / 'lower-triangular' / 'permuted-diagonal' (one non-zero per row and column, not on
+    the diagonal) / 'other-zeros' (any other pattern: permuted triangles, blocks, single zeros)."""
+    z = np.asarray(vects, float) == 0.0
+    if not z.any():
+        return 'full'
+    low = z[1, 0] and z[2, 0] and z[2, 1]
+    up = z[0, 1] and z[0, 2] and z[1, 2]
+    if not z[0, 0] and not z[1, 1] and not z[2, 2]:
+        if low and up:
+            return 'diagonal'
+        if low:
+            return 'upper-triangular'
+        if up:
+            return 'lower-triangular'
+    if np.all((~z).sum(axis=0) == 1) and np.all((~z).sum(axis=1) == 1):
+        return 'permuted-diagonal'
+    return 'other-zeros'
+
+
+def axis_wrap_length(t):
+    """Length of the separation a "no tilt" shortcut would return: every periodic cell vector i is treated as if it
+    lay along its dominant Cartesian axis c_i, and component c_i of the direct separation is wrapped by vects[i, c_i]
+    (shift clipped to -1/0/+1).  Exact for diagonal and permuted-diagonal cells.  None where two cell vectors share
+    their dominant axis."""
+    ax = np.argmax(np.abs(t.vects), axis=1)
+    if sorted(int(a) for a in ax) != [0, 1, 2] or t.n == 0:
+        return None
+    d = t.d.copy()
+    with np.errstate(all='ignore'):
+        for i in range(3):
+            if t.pbc[i]:
+                c = int(ax[i])
+                d[:, c] -= t.vects[i, c] * np.clip(np.rint(d[:, c] / t.vects[i, c]), -1, 1)
+        return np.linalg.norm(d, axis=1)
+
+
 def hostility(t):
     """Row masks of input classes that defeat plausible shortcuts of the image search (coverage information for
     floors, no verdicts).  All are statements about the INPUT (direct separation, cell, periodicity):
@@ -222,20 +302,27 @@ def hostility(t):
     short_direct_beaten   ... although the direct separation is shorter than half the shortest cell vector (only
                           possible where a +-1 combination of periodic cell vectors is shorter than every cell vector)
     relhalf_beaten        ... although every box-relative component of the direct separation is within +-1/2
-    combo_image           the unique best candidate shifts along two or three cell vectors at once"""
+    combo_image           the unique best candidate shifts along two or three cell vectors at once
+    axis_wrap_wrong       wrapping each Cartesian component on its own (axis_wrap_length) gives another length than the
+                          shortest candidate (by more than 8 bounds, either way)"""
+    if t.host is not None:
+        return t.host
     if t.n == 0:
         z = np.zeros(0, bool)
-        return dict(beaten=z, short_direct_beaten=z, relhalf_beaten=z, combo_image=z)
+        return dict(beaten=z, short_direct_beaten=z, relhalf_beaten=z, combo_image=z, axis_wrap_wrong=z)
     ld = np.linalg.norm(t.d, axis=1)
     vmin = np.linalg.norm(t.vects, axis=1).min()
     beaten = t.l27 < ld - 8 * t.bnd
     with np.errstate(all='ignore'):
         dr = np.linalg.solve(t.vects.T, t.d.T).T
         nwin = np.rint(np.linalg.solve(t.vects.T, (t.v27 - t.d).T).T)
-    return dict(beaten=beaten,
-                short_direct_beaten=beaten & (ld < 0.5 * vmin),
-                relhalf_beaten=beaten & np.all(np.abs(dr) <= 0.5, axis=1),
-                combo_image=(t.ntie27 == 1) & ((nwin != 0).sum(axis=1) >= 2))
+    aw = axis_wrap_length(t)
+    t.host = dict(beaten=beaten,
+                  axis_wrap_wrong=np.zeros(t.n, bool) if aw is None else np.abs(aw - t.l27) > 8 * t.bnd,
+                  short_direct_beaten=beaten & (ld < 0.5 * vmin),
+                  relhalf_beaten=beaten & np.all(np.abs(dr) <= 0.5, axis=1),
+                  combo_image=(t.ntie27 == 1) & ((nwin != 0).sum(axis=1) >= 2))
+    return t.host
 
 
 def self_check(t):
